@@ -234,10 +234,12 @@ def c14_scenario(S, fmt, ch, rate, rng, N=None, rich=False):
     B = scen.block_hint(fmt, ch, rate)
     N = N or (2 * B + 1 if B > 1 else 41)
     seed = rng.randint(1, 10 ** 6)
-    S.scn(fmt="0x%x" % fmt, ch=ch, T=T, kind="c14", **({"rich": 1} if rich else {}))
+    S.scn(fmt="0x%x" % fmt, ch=ch, T=T, kind="c14", **({"rich": rich} if rich else {}))
     ofmt = fmt if scen.major(fmt) == scen.RAW else 0
     # rich: application chunks and a title in front of the audio (what a reader has to skip on a route that cannot seek)
     pre = ["setchunk 0 7a7a7a7a 37 11", "setstr 0 1 5469746c65", "setchunk 0 71717171 4 12"] if rich else []
+    if rich and rich > 1:         # a chunk larger than the header cache: rich = payload size
+        pre = ["setchunk 0 7a7a7a7a %d 11" % rich]
     # written through every route: byte identical files (validator: SameBytesOK), descriptor closed iff close_desc
     for i, rt in enumerate(ROUTES_W):
         if scen.major(fmt) == scen.SD2 and rt != "path":
